@@ -160,7 +160,10 @@ class _Rec:
         if self.kind == "sink":
             self.run.on_sink(self.hid, a[0] if a else None)
             self.run.reenter(self.hid)
-            return None
+            # a sink is an arbitrary callable: what it returns (nothing, a flag, the message itself) is none of the hub's
+            # business and must not influence the rest of the fan-out
+            return {"none": None, "false": False, "true": True, "zero": 0, "echo": a[0] if a else None,
+                    "text": "handled"}.get(self.values)
         self.n += 1
         # a sensor that reports the same reading every time, or two sensors that report the same reading, are sources like
         # any other: "each source's value once" is a statement about sources, not about distinct values
@@ -325,7 +328,8 @@ class RouterRun:
             self.peers[p["n"]] = s
         shapes_k = cfg.get("sink_shapes", ["func", "method", "partial"])
         shapes_s = cfg.get("source_shapes", ["func", "method", "partial"])
-        self.sink_recs = [_Rec(self, "sink", i, shapes_k[i % len(shapes_k)]) for i in range(3)]
+        rets_k = cfg.get("sink_returns", ["none"] * 3)
+        self.sink_recs = [_Rec(self, "sink", i, shapes_k[i % len(shapes_k)], rets_k[i % len(rets_k)]) for i in range(3)]
         vals_s = cfg.get("source_values", ["unique"] * 3)
         self.source_recs = [_Rec(self, "source", i, shapes_s[i % len(shapes_s)], vals_s[i % len(vals_s)]) for i in range(3)]
 
@@ -1015,6 +1019,8 @@ def gen_trace(seed):
            "inbox_cap": rc.choice([1, 2, 64, 64, 64]),
            "sink_shapes": [rc.choice(["func", "method", "partial", "weakowner"]) for _ in range(3)],
            "source_shapes": [rc.choice(["func", "method", "partial", "weakowner"]) for _ in range(3)],
+           "sink_returns": rc.choice([["none"] * 3, ["none"] * 3, ["false", "true", "none"], ["echo", "zero", "text"],
+                                      ["true", "false", "echo"]]),
            # what the sources report: fresh tokens, the same reading every time, or the same reading as each other
            "source_values": rc.choice([["unique"] * 3, ["unique"] * 3, ["unique", "const", "shared"], ["shared"] * 3,
                                        ["const", "const", "unique"], ["shared", "shared", "unique"]])}
